@@ -1,7 +1,7 @@
 (* C02 - Injector result equals sequential evaluation of the declared graph. *)
-From Coq Require Import List Arith Bool.
+From Coq Require Import List Arith Bool Permutation.
 Import ListNotations.
-Require Import Sem2 Safe Live Denote GenU GenSound Resolve Spec.
+Require Import Sem2 Safe Live Denote GenU GenSound Resolve Spec Reorder.
 
 (* In every run of a well-synchronised program a provider returns at most once, with one argument vector. *)
 Theorem C02_once : forall p ls s n vs ws, wf p -> Sem2.run p (Sem2.init p) ls = Some s ->
@@ -106,3 +106,25 @@ Example C02_example : seq_eval 5 ex_prog (1, 0) = Some (VApp 1 0 [VApp 0 0 [VArg
   exists s, Sem2.run ex_prog (Sem2.init ex_prog) [LEnter 1; LExitOk 1; LClose 1; LWaitPass 0; LEnter 0; LExitOk 0] = Some s /\
             lookup (1, 0) (s_store s) = Some (VApp 1 0 [VApp 0 0 [VArg 2]; VArg 2]).
 Proof. split; [vm_compute; reflexivity|]. eexists. split; vm_compute; reflexivity. Qed.
+
+(* "... or reordering the declaration never changes the value returned": two accepted declarations whose provider lists are
+   permutations of each other (Set grouping is not part of a declaration: it is the flattened list) give the requested type
+   the same value - the same tree of the same providers applied to the same arguments; only the positions at which the
+   providers stand in their lists differ (same_value relates position pi of one list to the position of the SAME provider
+   record in the other).  With C02_result_is_declared_value this is a statement about what both injectors return. *)
+Theorem C02_order_does_not_change_value : forall d d' pm provs pm' provs' v,
+  Permutation (Gen.d_provs d) (Gen.d_provs d') -> Gen.d_ret d = Gen.d_ret d' ->
+  dpm d = Some (pm, provs) -> dpm d' = Some (pm', provs') ->
+  spec_den pm provs (Gen.d_ret d) v ->
+  exists v', spec_den pm' provs' (Gen.d_ret d') v' /\ same_value provs provs' v v' /\
+             forall w, spec_den pm' provs' (Gen.d_ret d') w -> w = v'.
+Proof. exact order_does_not_change_value. Qed.
+Print Assumptions C02_order_does_not_change_value.
+
+(* the supplier map mentions no order: a type maps to (pi, gi) exactly when the provider at pi is a supplier whose first
+   result group containing the type is gi *)
+Theorem C02_supplier_map_characterised : forall d pm provs, dpm d = Some (pm, provs) ->
+  (forall t pi gi, Gen.assoc t pm = Some (pi, gi) <-> supplies provs pi gi t) /\
+  provs = Gen.d_provs d ++ flat_map fields_of (filter Gen.isstruct (Gen.d_provs d)).
+Proof. exact sup_char. Qed.
+Print Assumptions C02_supplier_map_characterised.
